@@ -143,6 +143,7 @@ func (t *Tokenizer) Reset() {
 	// Clear input reference to allow garbage collection
 	t.input = nil
 	t.colMemoValid = false
+	t.blankMemoValid = false
 
 	// Reset position tracking
 	t.pos = NewPosition(1, 0)
